@@ -32,9 +32,18 @@ def schedules(ctx, binary, consts, tag):
             break
 
 
-def free(ctx, binary, g, k):
+def free(ctx, binary, g, k, nommap=False):
     fout = ctx.path("stub_trace.ndjson")
-    rc, out = ctx.run_bin(binary, "^TestVerifStubFree$", env={"VERIF_OUT": fout, "VERIF_G": str(g), "VERIF_K": str(k)}, timeout=600)
+    if os.path.exists(fout):
+        os.remove(fout)
+    env = {"VERIF_OUT": fout, "VERIF_G": str(g), "VERIF_K": str(k)}
+    if nommap:
+        env["VERIF_NOMMAP"] = "1"
+    rc, out = ctx.run_bin(binary, "^TestVerifStubFree$", env=env, timeout=600, args=["-test.v"])
+    if nommap and rc == 0 and "--- SKIP" in out:
+        ctx.note("executable mappings cannot be refused in this environment (no seccomp): public Acquire on the fallback path not exercised: " + out[-200:])
+        ctx.assumptions.append("the public Acquire was not driven onto the fallback path (seccomp filter unavailable)")
+        return
     if rc != 0 or not os.path.exists(fout) or os.path.getsize(fout) == 0:
         ctx.violation("requesting / writing / executing stub space crashed: " + out[-800:], {"family": "stub-free", "kind": "crash", "tail": out[-2000:]})
         return
@@ -49,6 +58,11 @@ def free(ctx, binary, g, k):
         ctx.violation("regions recorded from the real allocator violate StubAlloc's invariants: %s" % which[:2],
                       {"family": "stub-free", "kind": "trace-rejected", "which": which[:2], "trace": evs[:300]})
         return
+    if nommap:
+        viah = len([e for e in evs if e["ev"] == "region" and not e["err"] and e["src"] == "acquire-holder"])
+        if viah == 0 or any(e["ev"] == "region" and not e["err"] and e["src"] == "acquire" for e in evs):
+            raise vlib.Broken("executable mappings were refused but public Acquire did not (only) use the reserve: %d regions from the reserve" % viah)
+        ctx.note("executable mappings refused (seccomp): %d regions granted by the public Acquire from the built-in reserve, written, executed" % viah)
     ngranted = len([e for e in evs if e["ev"] == "region" and not e["err"]])
     nerr = len([e for e in evs if e["ev"] == "region" and e["err"]])
     if nerr == 0:
@@ -112,6 +126,8 @@ def run(ctx):
         schedules(ctx, binary, {"P": "{1, 2}", "Sizes": "{1, 2, 3}", "K": 2, "R": 5}, "2 procs x 2 requests, sizes {1,2,3}, reserve 5")
         schedules(ctx, binary, {"P": "{1, 2, 3}", "Sizes": "{2}", "K": 1, "R": 5}, "3 procs x 1 request, size 2, reserve 5")
     free(ctx, binary, 4, 8 if q else 40)
+    # the same with executable mappings REFUSED for the whole process: the public Acquire itself must fall back to the reserve
+    free(ctx, binary, 4, 8 if q else 20, nommap=True)
     ctx.cov["exhaustive"] = True
     ctx.cov["rule"] = ("every interleaving of Load/Finish of the bounded fallback model replayed on the real acquireFromHolder "
                        "through the holder.loaded hook (reserve shrunk to R*48 bytes so exhaustion is reached); free-running "
